@@ -35,16 +35,17 @@ import (
 	"verif/harness/internal/vh"
 )
 
-func loadKeys2048() (map[string]*paillier.SecretKey, error) {
+func loadKeys2048() (map[string]*paillier.SecretKey, map[string][2]*big.Int, error) {
 	root := os.Getenv("VERIF_ROOT")
 	if root == "" {
 		root = "/verif"
 	}
 	b, err := os.ReadFile(filepath.Join(root, "corpus", "c08", "keys2048.txt"))
 	if err != nil {
-		return nil, err
+		return nil, nil, err
 	}
 	out := map[string]*paillier.SecretKey{}
+	primes := map[string][2]*big.Int{}
 	for _, l := range strings.Split(string(b), "\n") {
 		f := strings.Fields(l)
 		if len(f) != 4 || f[1] != "2048" {
@@ -59,24 +60,32 @@ func loadKeys2048() (map[string]*paillier.SecretKey, error) {
 			g := must(znstar.NewPaillierGroup(mk(p), mk(q)))
 			sk = must(paillier.NewLegacySecretKey(g))
 		}); perr != "" {
-			return nil, fmt.Errorf("key %s: %s", f[0], perr)
+			return nil, nil, fmt.Errorf("key %s: %s", f[0], perr)
 		}
 		out[f[0]] = sk
+		primes[f[0]] = [2]*big.Int{p, q}
 	}
 	if out["general"] == nil || out["blum"] == nil || out["safe"] == nil {
-		return nil, fmt.Errorf("keys2048.txt incomplete")
+		return nil, nil, fmt.Errorf("keys2048.txt incomplete")
 	}
-	return out, nil
+	return out, primes, nil
 }
 
 func (h *harness) paillier2048(flipBudget int) {
-	keys, err := loadKeys2048()
+	keys, primes, err := loadKeys2048()
 	if err != nil {
 		h.res.Note("2048-bit Paillier proofs skipped: %v", err)
 		return
 	}
-	if os.Getenv("C08_P2048") == "range" { // debugging aid: only the range proof
+	switch os.Getenv("C08_P2048") { // debugging aids
+	case "range":
 		h.rangeProof(keys, flipBudget)
+		return
+	case "cggmp":
+		h.cggmp21(keys, primes)
+		return
+	case "lpdl":
+		h.lpdlProof(keys)
 		return
 	}
 	t0 := time.Now()
@@ -92,6 +101,8 @@ func (h *harness) paillier2048(flipBudget int) {
 	t3 := time.Now()
 	if h.thorough || h.a.Search {
 		h.rangeProof(keys, flipBudget)
+		h.lpdlProof(keys)
+		h.cggmp21(keys, primes)
 	}
 	if os.Getenv("C08_TIMING") != "" {
 		fmt.Fprintf(os.Stderr, "pailliern %.1fs blummod %.1fs lp %.1fs range %.1fs\n", t1.Sub(t0).Seconds(), t2.Sub(t1).Seconds(), t3.Sub(t2).Seconds(), time.Since(t3).Seconds())
